@@ -215,6 +215,9 @@ pub fn random_history(rng: &mut StdRng, max_ops: usize, allow_errors: bool) -> (
                     "minrep" | "minsub" => {
                         if allow_errors && rng.gen_bool(0.1) {
                             0
+                        } else if rng.gen_bool(0.05) {
+                            // numeric boundaries of the u32 thresholds (the specification sees them capped, see Cfg::to_json)
+                            [4294967295i64, 4294967294, 2147483648, 65536, 256, 255][rng.gen_range(0..6)]
                         } else {
                             rng.gen_range(1..=3)
                         }
@@ -392,7 +395,7 @@ pub fn run_rust_history_ref(h: usize, sets: &[Vec<String>], ops: &[Op], proc_ref
                     believe(&mut bel.1, name, *arg);
                 }
                 // a Rust setter returns `&mut Self`: the receiver itself
-                evops.push(json!({"op": "set", "o": o, "name": name, "arg": arg, "ret": o, "ok": ok, "msg": msg}));
+                evops.push(json!({"op": "set", "o": o, "name": name, "arg": (*arg).min(1_000_000), "ret": o, "ok": ok, "msg": msg}));
                 idx.push(json!({"op": "set", "o": o, "name": name, "arg": arg}));
             }
             Op::Clone { o, ret } => {
